@@ -65,6 +65,7 @@ Definition w_beq (a b : weighting Q) : bool :=
   | WInner k f, WInner k' f' => wkind_beq k k' && Z.eqb f f'
   | WNorm k f, WNorm k' f' => wkind_beq k k' && Z.eqb f f'
   | WDist k f, WDist k' f' => wkind_beq k k' && Z.eqb f f'
+  | WMatrix i e, WMatrix i' e' => Z.eqb i i' && expo_beq e e'
   | _, _ => false
   end.
 Definition tsp_beq (a b : tsp Q) : bool :=
